@@ -471,9 +471,20 @@ def r4_selectors(ctx):
         r.viol("R4:get_plural_category_for", "run-time helper computes `%s`, expected `%s`" % (got[0][1], w), file="leptos_i18n/src/macro_helpers/mod.rs")
     fn = ast.fn("leptos_i18n_macro/src/t_plural/mod.rs", "t_plural_inner")
     if fn is not None:
-        qs = [re.sub(r"\s+", "", tok_text(q["tokens"])) for q in xquotes(fn.body)]
-        if not any(q.startswith("matchleptos_i18n::__private::get_plural_category_for(#locale_ident,&#count_ident,#plural_type){#(#match_arms,)*#fallback,}") for q in qs):
-            r.viol("R4:t_plural_inner", "t_plural! template changed", file=fn.file, line=fn.line)
+        # the generated selection, read off the expansion (rules/reactmacros.py evaluates t_plural_inner): category of (locale, &count,
+        # rule type), one arm per written form in order, the fallback last
+        from rules import reactmacros, absint as _ai
+        from report import Rule as _R
+        tmp = _R("C05.R4", "tmp", "tmp", floor=0)
+        try:
+            reactmacros.check(ctx, tmp, "R4")
+            bad_ = [v for v in tmp.violations if "t_plural" in v.key]
+            for v in bad_:
+                r.viol(v.key, v.msg, file=v.file, line=v.line)
+            if not bad_:
+                r.inst("t_plural!", "match get_plural_category_for(_locale, &_value, rule type) { written forms in order, fallback last } in all three input kinds")
+        except _ai.Unknown as u:
+            r.viol("R4:t_plural_inner#undecided", "t_plural_inner cannot be interpreted on the current code (%s): not decided (fail closed)" % str(u)[:200], file=fn.file, line=fn.line)
         else:
             r.inst("t_plural_inner", "match get_plural_category_for(locale, &count, plural_type) { forms.., fallback }")
     return r
